@@ -62,7 +62,7 @@ def small_regime(ctx):
         if z3.is_app(p) and p.decl().kind() in (z3.Z3_OP_LE, z3.Z3_OP_LT):
             a, b = p.children()
             for c in (a, b):
-                if z3.is_rational_value(c) and 0 < c.numerator_as_long() / c.denominator_as_long() < 1e-6:
+                if z3.is_rational_value(c) and 0 < c.numerator_as_long() and c.numerator_as_long() * 1000000 < c.denominator_as_long():
                     return True
             # forms like  c*x <= y are not small-regime markers
     return False
